@@ -1334,6 +1334,16 @@ static void judge_header(Rng &r, const std::string &header, bool absent = false)
       R.count("dontcare_member_dropped");
       continue;
     }
+    // more than 180 keepable members: which ones make it is only constrained by the limit itself - as long as fewer
+    // than 180 were kept nothing justifies dropping a valid member (from seeded change C15-w7-1: members that were
+    // rejected used up slots of the limit)
+    if (subset_only && !dup && got.size() < 180 && m.tri == kMustKeep)
+    {
+      R.violation("extract-keeps-valid", "over-180-members:" + std::string(m.why),
+                  "member " + vf::show(m.keys[0], 40) + " dropped although only " + std::to_string(got.size()) +
+                      " members were kept (limit 180); " + hshow);
+      return;
+    }
     if (subset_only)
       continue;
     R.violation("extract-keeps-valid", m.why,
